@@ -20,7 +20,7 @@ RULE = (
     "kind rule; points closer than 1e-5 to a boundary without being on it are undecided. A query is non-trivial "
     "when the point lies inside the bounding box of the shape; the count is over distinct (shape, point) cases."
 )
-MANDATORY = ["curved-critical-inside", "curved-critical-outside", "boundary-curved", "boundary-straight",
+MANDATORY = ["shape-with-history", "curved-critical-inside", "curved-critical-outside", "boundary-curved", "boundary-straight",
              "kind:simple+", "kind:simple-", "kind:connected+", "kind:connected-", "kind:disjoint+",
              "kind:disjoint-", "kind:empty", "kind:whole"]
 CONSTANTS = {"margin": probes.MARGIN}
@@ -60,9 +60,26 @@ def judge(ctx, case):
     mode = case.get("ptype", 0)
     Sp = lib.sp()
     kind = lib.spec_kind(spec)
+    hist = case.get("hist") if spec["k"] not in ("empty", "whole") else None
     try:
         with call_limit(60):
             shape = lib.build(spec)
+            if hist:
+                # the shape is asked a few questions where it was built and is
+                # then transformed in place; the model is transformed alike
+                from .c09 import apply_step, model_step
+
+                c0 = lib.spec_curves(spec)[0][0][0]
+                _ = (float(c0[0]) + 0.3, float(c0[1]) + 0.2) in shape
+                shape.box()
+                float(shape)
+                for j in shape.jordans:
+                    float(j)
+                    j.box()
+                    j.segments[0](0.5)
+                for step in hist:
+                    apply_step(shape, step)
+                    spec = lib.spec_map(spec, lambda p, st_=step: model_step([[[p, p]]], st_)[0][0][0])
     except BaseException as exc:
         ctx.violation("build", "constructor-raised", case, repr(exc), innermost_shapepy_frame(exc))
         return
@@ -110,7 +127,7 @@ def judge(ctx, case):
         truth = region.contains(q)
         inbox = box[0] <= q[0] <= box[2] and box[1] <= q[1] <= box[3]
         crit = curved and _in_curved_hull(curves, q)
-        strata = ["kind:" + kind, "tag:" + tag]
+        strata = ["kind:" + kind, "tag:" + tag] + (["shape-with-history"] if hist else [])
         if crit:
             strata.append("curved-critical-inside" if truth else "curved-critical-outside")
         sub = dict(spec=spec, point=list(q), ptype=mode, tag=tag)
@@ -163,7 +180,12 @@ def cases(draw):
     nk, deg = draw(S.numkind_and_degrees(curved_weight=2))
     spec = draw(S.shape_spec(nk, deg, templates=True))
     us = draw(st.lists(st.floats(0.0, 1.0), min_size=16, max_size=16))
-    return {"nk": nk, "deg": list(deg), "spec": spec, "us": us, "ptype": draw(st.integers(0, 4))}
+    out = {"nk": nk, "deg": list(deg), "spec": spec, "us": us, "ptype": draw(st.integers(0, 4))}
+    if draw(st.integers(0, 3)) == 0:
+        from .c09 import step
+
+        out["hist"] = draw(st.lists(step(nk in ("int", "frac")), min_size=1, max_size=2))
+    return out
 
 
 def parts(tier):
